@@ -82,7 +82,7 @@ class C08(core.Check):
             if key not in seen:
                 seen.add(key)
                 keep.append(o)
-        return core.Concat(rt.OptSpace(al.S_A(), keep), rt.OptSpace(al.S_B((2,)), full),
+        return core.Concat(rt.OptSpace(al.S_A(), keep), rt.OptSpace(al.S_B((2,)), full), rt.OptSpace(al.S_D(), full),
                            _Cross(al.IRSpace(al.A_CHAIN, (0, 1), al.RETURNS_RED, al.KWARGS, (0,))))
 
     def run_case(self, case):
